@@ -376,10 +376,9 @@ fn parse_compressed<'a>(input: &'a [u8], cache: &AtomCache) -> NomResult<'a, Own
     }
 
     let mut decoder = ZlibDecoder::new(rest);
-    // Deflate cannot expand by more than about 1032:1, so the input bounds what is worth
-    // reserving up front; never inflate beyond the declared size.
-    let mut decompressed =
-        Vec::with_capacity((uncompressed_size as usize).min(rest.len().saturating_mul(1032)));
+    // Reserve nothing from the declared size: the buffer grows with what really inflates,
+    // and never beyond the declared size.
+    let mut decompressed = Vec::new();
     decoder
         .by_ref()
         .take(uncompressed_size as u64 + 1)
